@@ -6,12 +6,14 @@
 // internal/app/server) against a real in-memory server stack, from connections of
 // every identity class, with arbitrary claimed SenderId / ReceiverId / Token fields.
 //
-// case:  c <cmdType> p <0|1> f <conn#> s <snd> r <rcv> t <tok|-> b <0|1>
+// case:  c <cmdType> p <0|1> f <conn#> s <snd> r <rcv> t <tok|-> b <0|1>      (snd/rcv/tok: literal, or @c<i> @m<i> @s<i> @k<i> @d<i>
 //
-//	m <map#|-1|-2> g <targetClient> k <code#|-1|-2> d <dom#|-1|-2>
-//	W conns <n> (<N|U|A><clientID>)* maps <n> (<listen>:<target>:<s|t>:<a|i>)*
-//	  codes <n> (<target>:<0|1>)* doms <n> (<owner>)*
-//	(first token `x` instead of `c`: excluded point of the model comparison, see ambiguousDefaultTarget)
+//	       = the connection id of connection i / id, secret key of mapping i / code i / id of domain i)
+//
+//		m <map#|-1|-2> g <targetClient> k <code#|-1|-2> d <dom#|-1|-2>
+//		W conns <n> (<N|U|A><clientID>)* maps <n> (<listen>:<target>:<s|t>:<a|i>)*
+//		  codes <n> (<target>:<0|1>)* doms <n> (<owner>)*
+//		(first token `x` instead of `c`: excluded point of the model comparison, see ambiguousDefaultTarget)
 //
 // obs:   <run> ~ <run>     first run: the packet as given; second run: the same packet with
 //
@@ -622,6 +624,49 @@ func (w *world) snapshot(ids []int64) snap {
 	return s
 }
 
+// resolveClaim: a claimed SenderId / ReceiverId / Token may name something that exists in the world — `@c<i>` the
+// connection id of connection i (e.g. another client's live control connection), `@m<i>` / `@s<i>` the id / secret key
+// of mapping i, `@k<i>` connection code i, `@d<i>` the id of domain mapping i; anything else is taken literally.
+func (w *world) resolveClaim(v string) string {
+	if len(v) < 3 || v[0] != '@' {
+		return v
+	}
+	i, err := strconv.Atoi(v[2:])
+	if err != nil || i < 0 {
+		return v
+	}
+	pick := func(xs []string) string {
+		if i < len(xs) {
+			return xs[i]
+		}
+		return v
+	}
+	switch v[1] {
+	case 'c':
+		if i < len(w.streams) {
+			return connID(i)
+		}
+	case 'm':
+		return pick(w.mapIDs)
+	case 's':
+		return pick(w.mapKeys)
+	case 'k':
+		return pick(w.codes)
+	case 'd':
+		return pick(w.domIDs)
+	}
+	return v
+}
+
+// reClaim replaces the claimed header fields of a case string.
+func reClaim(cs, snd, rcv, tok string) string {
+	t := strings.Fields(cs)
+	if len(t) > 11 {
+		t[7], t[9], t[11] = snd, rcv, tok
+	}
+	return strings.Join(t, " ")
+}
+
 func (w *world) refOf(id string) string {
 	if i := idx(w.mapIDs, id); i >= 0 {
 		return fmt.Sprintf("m%d", i)
@@ -909,13 +954,13 @@ func runOnce(k *kase, claimed bool) string {
 		cmd := &packet.CommandPacket{CommandType: packet.CommandType(k.ctype), CommandId: "cmd-verif-1", CommandBody: w.body(k)}
 		if claimed {
 			if k.snd != "0" {
-				cmd.SenderId = k.snd
+				cmd.SenderId = w.resolveClaim(k.snd)
 			}
 			if k.rcv != "0" {
-				cmd.ReceiverId = k.rcv
+				cmd.ReceiverId = w.resolveClaim(k.rcv)
 			}
 			if k.tok != "-" {
-				cmd.Token = k.tok
+				cmd.Token = w.resolveClaim(k.tok)
 			}
 		}
 		pt := packet.JsonCommand
@@ -1231,6 +1276,17 @@ func gen(out *vc.Out, r *vc.Rand, thorough bool) {
 								g = B // generic probe: name a target client even where the model's table has no use for it
 							}
 							execCase(out, ex(caseStr(ct, resp, from, cl.snd, cl.rcv, cl.tok, false, o, g, o, o, std), cl.extra))
+							if cl.snd == 0 && cl.extra == 0 {
+								// claimed fields naming things that exist: other clients' live connection ids, mapping ids, secrets
+								base := caseStr(ct, resp, from, 0, 0, "-", false, o, g, o, o, std)
+								execCase(out, reClaim(base, "@c0", "@c1", "@c0"))
+								execCase(out, reClaim(base, "@c1", "@c0", "@s0"))
+								if thorough {
+									execCase(out, reClaim(base, "@c2", "@c3", "@m0"))
+									execCase(out, withExtras(reClaim(base, "@c0", "@c0", "@k0"), A))
+								}
+								out.Count("matrix:claims-name-live-connections")
+							}
 							out.Count(fmt.Sprintf("matrix:id=%s", conns[from][:1]))
 						}
 					}
@@ -1333,6 +1389,9 @@ func gen(out *vc.Out, r *vc.Rand, thorough bool) {
 				for _, from := range froms {
 					for _, g := range []int64{B, 2002, 1004, A, 0, -1} {
 						execCase(out, caseStr(ct, false, from, 0, 0, "-", false, 0, g, 0, 0, w))
+						if g == B {
+							execCase(out, reClaim(caseStr(ct, false, from, 0, 0, "-", false, 0, g, 0, 0, w), "@c0", "@c5", "@c4"))
+						}
 						if g == B || g == 2002 {
 							execCase(out, withExtras(caseStr(ct, false, from, 0, 0, "-", false, 0, g, 0, 0, w), 2002))
 						}
@@ -1412,6 +1471,9 @@ func gen(out *vc.Out, r *vc.Rand, thorough bool) {
 		}
 		g := vc.Pick(r, []int64{A, B, S, 1004, 0, -1})
 		cstr := caseStr(ct, r.Intn(10) == 0, r.Intn(nc), snd, rcv, tok, r.Intn(20) == 0, ref(len(ms)), g, ref(len(cds)), ref(len(ds)), w)
+		if r.Intn(3) == 0 {
+			cstr = reClaim(cstr, fmt.Sprintf("@c%d", r.Intn(nc)), vc.Pick(r, []string{"0", "@c0", "@m0", "@s0"}), vc.Pick(r, []string{"-", "@c0", "@c1", "@k0"}))
+		}
 		if r.Intn(3) == 0 {
 			cstr = withExtras(cstr, vc.Pick(r, ids))
 		}
